@@ -826,3 +826,14 @@ Theorem C02_failed_wait_no_effect_old_refuted :
   ~ failed_wait_no_effect_full false.
 Proof. exact @failed_wait_no_effect_old_refuted. Qed.
 Print Assumptions C02_failed_wait_no_effect_old_refuted.
+
+(* a comparator returning (int)(a->off - b->off) is not an order on offsets >= 2 GiB apart (0 vs 2^31: wrong sign, 0 vs 2^32: equal); the stream theorems hold for offsets of any magnitude (Z) given sorter_ok *)
+Theorem C02_truncated_offset_comparator_refuted :
+  ~ cmp_trunc32_orders_full.
+Proof. exact @cmp_trunc32_orders_refuted. Qed.
+Print Assumptions C02_truncated_offset_comparator_refuted.
+
+Theorem C02_truncated_offset_comparator_small :
+  forall a b : Z, (-2147483648 <= a - b < 2147483648)%Z -> cmp_trunc32 a b = (a - b)%Z.
+Proof. exact @cmp_trunc32_small. Qed.
+Print Assumptions C02_truncated_offset_comparator_small.
